@@ -558,11 +558,10 @@ def _get_variables_iterative(expr: Expression) -> set[Variable]:
             stack.append(node.operand)
             continue
 
-        # Fallback: call get_variables (might recurse for custom expressions)
-        try:
-            variables.update(node.get_variables())
-        except RecursionError:
-            # If recursion fails, we can't process this node
-            pass
+        # Fallback: call get_variables (might recurse for custom expressions).
+        # A RecursionError must propagate: swallowing it silently dropped the
+        # node's variables, and Problem.variables then cached the truncated list,
+        # so the problem stayed broken even inside increased_recursion_limit().
+        variables.update(node.get_variables())
 
     return variables
